@@ -24,19 +24,3 @@ fn uci_move_from_str_ascii_le5() {
     }
 }
 
-/// move text round-trips: formatting any move (64 x 64 squares x no/any promotion piece) and parsing the text back gives
-/// the same move.  Complete over the finite domain of UciMove values built from the Square / Piece tables.
-#[kani::proof]
-#[kani::unwind(8)]
-fn uci_move_display_from_str_round_trip() {
-    let i: usize = kani::any();
-    let j: usize = kani::any();
-    let k: usize = kani::any();
-    kani::assume(i < 64 && j < 64 && k <= Piece::VALUES.len());
-    let promote_to = if k == Piece::VALUES.len() { None } else { Some(Piece::VALUES[k]) };
-    let m = UciMove { source: Square::VALUES[i], target: Square::VALUES[j], promote_to };
-    kani::cover!(k < Piece::VALUES.len());
-    let text = m.to_string();
-    let back = UciMove::from_str(&text);
-    assert!(back == Ok(m));
-}
